@@ -651,8 +651,8 @@ func genStartingWithUserFilter(r *rand.Rand, u *universe, base *mtuple) (sf.Star
 		f.ObjectType, oshape = "", "t-,r+"
 	}
 	n := 1 + r.Intn(4)
-	if r.Intn(100) == 0 {
-		n = 0
+	if r.Intn(100) < 5 {
+		n = 0 // an empty user filter selects nothing
 	}
 	kinds := map[string]bool{}
 	for i := 0; i < n; i++ {
